@@ -10,9 +10,11 @@ for n in $names; do
   (cd /tmp && PYTHONPATH=/repo/src MPLBACKEND=Agg timeout 900 /venv/bin/python $d/demo.py >/dev/null 2>&1); dc=$?
   if git -C /repo apply --check $d/patch.diff 2>/dev/null; then
     git -C /repo apply $d/patch.diff
+    cp evidence/$id.json /tmp/evidence_$id.keep 2>/dev/null
     (cd /tmp && PYTHONPATH=/repo/src MPLBACKEND=Agg timeout 900 /venv/bin/python $d/demo.py >/dev/null 2>&1); ds=$?
     out=$(./check $id quick 2>&1); rc=$?
     git -C /repo checkout -- .
+    [ -f /tmp/evidence_$id.keep ] && mv /tmp/evidence_$id.keep evidence/$id.json   # evidence must come from the unchanged tree
     nv=$(echo "$out" | grep -c '^VIOLATION')
     nfi=$(echo "$out" | grep '^VIOLATION' | grep -vc 'no-failing-input-found')
     pok=$(echo "$out" | grep -o 'proof_ok=[A-Za-z]*' | tail -1)
